@@ -144,6 +144,7 @@ fn cmd_run(a: &[String]) {
     let mut cases = quick_cases(prop) * if tier == "thorough" { 12 } else { 1 };
     let mut threads = std::thread::available_parallelism().map(|n| n.get()).unwrap_or(8).min(16);
     let mut write_evidence = true;
+    let mut out_summary: Option<String> = None;
     let mut i = 2;
     while i < a.len() {
         match a[i].as_str() {
@@ -156,6 +157,11 @@ fn cmd_run(a: &[String]) {
                 i += 1;
             }
             "--no-evidence" => write_evidence = false,
+            "--out" => {
+                out_summary = Some(a[i + 1].clone());
+                write_evidence = false;
+                i += 1;
+            }
             _ => {}
         }
         i += 1;
@@ -257,7 +263,7 @@ fn cmd_run(a: &[String]) {
                 "rule": rule_text(prop),
                 "samples": a.samples,
                 "engines": { "E1-histories": { "cases": a.evaluations, "polls": a.polls, "child_polls": a.child_polls, "threads": threads } },
-                "labels": a.labels, "subjects": a.subjects,
+                "labels": a.labels, "subjects": a.subjects, "nontrivial_by_subject": a.nontrivial_by_subject,
                 "max_groups": a.max_groups, "max_population": a.max_peak,
                 "known_findings_hit": a.known_hits,
                 "excluded": a.known_hits.values().sum::<u64>(),
@@ -276,6 +282,17 @@ fn cmd_run(a: &[String]) {
         });
         let _ = std::fs::create_dir_all(format!("{dir}/evidence"));
         let _ = std::fs::write(format!("{dir}/evidence/{pid}.json"), serde_json::to_string_pretty(&ev).unwrap());
+    }
+    if let Some(o) = &out_summary {
+        let name = if cfg!(debug_assertions) { "E1-histories" } else { "E1-histories-no-debug-assertions" };
+        let sm = json!({
+            "engine": name, "property": pid, "tier": tier, "seed": seed,
+            "executions": a.evaluations, "distinct_nontrivial": a.nontrivial.len(),
+            "rule": "the same generated histories and oracles as E1, with the crate built WITHOUT debug assertions / overflow checks (its debug_assert!s and unreachable_unchecked guards are compiled out, as in a release build of a user)",
+            "polls": a.polls, "child_polls": a.child_polls, "subjects": a.subjects,
+            "samples": a.samples.iter().take(1).collect::<Vec<_>>(), "violations": vio_lines.iter().map(|v| v.0.clone()).collect::<Vec<_>>(), "wall_s": out.wall_s,
+        });
+        let _ = std::fs::write(o, serde_json::to_string_pretty(&sm).unwrap());
     }
     if !a.harness_errors.is_empty() {
         for e in a.harness_errors.iter().take(3) {
